@@ -41,7 +41,7 @@ type c13Scn struct {
 	idx         int
 }
 
-var c13Variants = []string{"g.cmds", "g.file", "n.cmds", "n.cfgs", "n.cfg", "n.cfgsfile"}
+var c13Variants = []string{"g.cmds", "g.file", "n.cmds", "n.cfgs", "n.cfg", "n.cfgsfile", "n.file", "g.cmd1"}
 
 func conc(ss []string) []string {
 	r := make([]string, len(ss))
@@ -102,6 +102,9 @@ func c13Run(s *c13Scn, variant string) verdict {
 
 	if len(s.Op) > 0 {
 		opOpts = append(opOpts, opoptions.WithFailedWhenContains(conc(s.Op)))
+	} else if s.idx%3 == 0 {
+		// an operation-level list that is given but empty is no list: the driver's one stays in force
+		opOpts = append(opOpts, opoptions.WithFailedWhenContains([]string{}))
 	}
 
 	if s.Stop {
@@ -166,6 +169,27 @@ func c13Run(s *c13Scn, variant string) verdict {
 			m, err = nd.SendConfigs(cmds, opOpts...)
 		case "n.cfgsfile":
 			m, err = nd.SendConfigsFromFile(file, opOpts...)
+		case "n.file":
+			m, err = nd.SendCommandsFromFile(file, opOpts...)
+		case "g.cmd1":
+			// one command after the other through SendCommand, collected the way SendCommands would (no stop-on-failed here:
+			// the caller decides), so the marking of each single response is checked too
+			m = response.NewMultiResponse("sim")
+
+			for _, c := range cmds {
+				var r1 *response.Response
+
+				r1, err = gd.SendCommand(c, opOpts...)
+				if err != nil {
+					break
+				}
+
+				m.AppendResponse(r1)
+
+				if s.Stop && r1.Failed != nil {
+					break
+				}
+			}
 		case "n.cfg":
 			single, err = nd.SendConfig(strings.Join(cmds, "\n"), opOpts...)
 		}
@@ -302,7 +326,7 @@ func c13(_ []string) error {
 				continue
 			}
 			// quick: three of the six variants per scenario, rotating; thorough: all
-			if tier() == "thorough" || (k+s.idx)%2 == 0 {
+			if tier() == "thorough" || (k+s.idx)%2 == 0 || va == "n.file" {
 				jobs = append(jobs, job{s, va})
 			}
 		}
